@@ -1,6 +1,121 @@
-"""self-test corpus runner (placeholder until the corpus is built)"""
-def main(only=None):
-    print("selftest corpus not built yet")
-    return 0
+"""Self-test corpus: every mutant (a realistic breaking edit that still compiles and passes the 44 tests) must make its rule fire
+with the expected key; every benign edit (behaviour-preserving refactoring) must leave every check silent.
+`./check selftest [--only name]`; thorough tier of a property records the outcome of its corpus entries in the evidence file."""
+import os, sys, json, shutil, subprocess, tempfile, concurrent.futures, time
+from .facts import VERIF
+from . import facts as factsmod
+
+factsmod_REPO0 = factsmod.REPO
+CORPUS = os.path.join(VERIF, "selftest")
+RESULT = os.path.join(VERIF, "selftest", "last_result.json")
+
+
+def load_index():
+    return json.load(open(os.path.join(CORPUS, "index.json")))
+
+
+def scratch_copy(dst, repo=None):
+    repo = repo or factsmod_REPO0
+    os.makedirs(dst, exist_ok=True)
+    subprocess.run(["rsync", "-a", "--exclude", "target", "--exclude", ".git", "--exclude", "benches", repo + "/", dst + "/"], check=True)
+    # benches are referenced by Cargo.toml
+    if os.path.isdir(os.path.join(repo, "benches")):
+        subprocess.run(["rsync", "-a", os.path.join(repo, "benches"), dst + "/"], check=True)
+
+
+def run_entry(kind, rec, verify_tests=False):
+    from .runner import check, load_known
+    t0 = time.time()
+    tmp = tempfile.mkdtemp(prefix="avst-")
+    out = {"name": rec["name"], "kind": kind, "props": rec["props"], "status": None, "fired": [], "wall_s": 0}
+    try:
+        wd = os.path.join(tmp, "repo")
+        scratch_copy(wd)
+        patch = os.path.join(CORPUS, kind, rec["name"] + ".patch")
+        p = subprocess.run(["patch", "-p1", "-s", "-i", patch], cwd=wd, capture_output=True, text=True)
+        if p.returncode != 0:
+            out["status"] = "skipped-does-not-apply"
+            return out
+        factsmod.REPO = wd
+        known = load_known()
+        keys = []
+        for prop in rec["props"]:
+            rc, findings, stats = check(prop, "quick", repo=wd, quiet=True, evidence=False, scratch=os.path.join(tmp, "s-" + prop))
+            for f in findings:
+                if (prop, f.key) in known:
+                    continue
+                keys.append("%s %s" % (prop, f.key))
+            if rc and not findings:
+                keys.append("%s tool-error" % prop)
+        out["fired"] = sorted(set(keys))
+        if kind == "mutants":
+            exp = rec.get("expect")
+            hit = [k for k in keys if (exp is None or exp in k)]
+            out["status"] = "fired" if hit else ("fired-other-key" if keys else "MISSED")
+        else:
+            out["status"] = "silent" if not keys else "FALSE-ALARM"
+        if verify_tests:
+            tgt = os.path.join(wd, "target")
+            if os.path.isdir(os.path.join(factsmod_REPO0, "target")):
+                subprocess.run(["cp", "-r", os.path.join(factsmod_REPO0, "target"), tgt])
+            tp = subprocess.run(["cargo", "test", "--workspace", "--no-fail-fast", "--offline"], cwd=wd, capture_output=True, text=True,
+                                env=dict(os.environ, CARGO_NET_OFFLINE="true"))
+            ok = tp.returncode == 0
+            passed = sum(int(l.split()[3]) for l in tp.stdout.split("\n") if l.startswith("test result:"))
+            out["tests"] = {"ok": ok, "passed": passed}
+        return out
+    except Exception as e:
+        out["status"] = "error: %r" % (e,)
+        return out
+    finally:
+        out["wall_s"] = round(time.time() - t0, 1)
+        shutil.rmtree(tmp, ignore_errors=True)
+
+
+factsmod_REPO0 = factsmod.REPO
+
+
+def main(only=None, verify_tests=False, workers=8):
+    idx = load_index()
+    jobs = []
+    for kind in ("mutants", "benign"):
+        for rec in idx[kind]:
+            if only and only not in rec["name"]:
+                continue
+            jobs.append((kind, rec))
+    results = []
+    with concurrent.futures.ProcessPoolExecutor(max_workers=workers if not verify_tests else 4) as ex:
+        futs = [ex.submit(run_entry, k, r, verify_tests) for k, r in jobs]
+        for f in futs:
+            r = f.result()
+            results.append(r)
+            print("%-8s %-40s %-18s %s %s" % (r["kind"], r["name"], r["status"], "tests=%s" % r["tests"] if "tests" in r else "", "; ".join(r["fired"])[:150]))
+    bad = [r for r in results if r["status"] in ("MISSED", "FALSE-ALARM") or str(r["status"]).startswith("error") or ("tests" in r and r["kind"] == "mutants" and not r["tests"]["ok"])]
+    json.dump(results, open(RESULT, "w"), indent=1)
+    print("selftest: %d entries, %d problems" % (len(results), len(bad)))
+    return 1 if bad else 0
+
+
 def annotate_evidence(prop):
-    pass
+    """thorough tier: run the corpus entries of this property and record fired/silent in the evidence (never changes the exit status)"""
+    try:
+        idx = load_index()
+        jobs = [(k, dict(r, props=[prop])) for k in ("mutants", "benign") for r in idx[k] if prop in r["props"]]
+        res = []
+        with concurrent.futures.ProcessPoolExecutor(max_workers=8) as ex:
+            for r in ex.map(_run, jobs):
+                res.append({"name": r["name"], "kind": r["kind"], "status": r["status"], "fired": r["fired"][:3]})
+        ev = os.path.join(VERIF, "evidence", prop + ".json")
+        d = json.load(open(ev))
+        d["coverage"]["selftest"] = {"entries": len(res), "mutants_fired": sum(1 for r in res if r["status"] in ("fired", "fired-other-key")),
+                                     "mutants_missed": [r["name"] for r in res if r["status"] == "MISSED"],
+                                     "benign_silent": sum(1 for r in res if r["status"] == "silent"),
+                                     "benign_false_alarm": [r["name"] for r in res if r["status"] == "FALSE-ALARM"],
+                                     "skipped": [r["name"] for r in res if str(r["status"]).startswith("skipped")], "results": res}
+        json.dump(d, open(ev, "w"), indent=1, default=str)
+    except Exception as e:
+        print("selftest annotation failed: %r" % (e,))
+
+
+def _run(job):
+    return run_entry(job[0], job[1])
